@@ -17,4 +17,5 @@ Extraction "model_dp.ml"
   DpOracle.mkStep DpOracle.contract_ok DpOracle.conf_sane DpOracle.c03_monitor DpOracle.c04_monitor
   DpOracle.c07_monitor DpOracle.c08_monitor DpOracle.c14_monitor DpOracle.c07_cycles_needed DpOracle.c07_bound DpOracle.c07_known_f15
   DpOracle.c03_monitor_ra DpOracle.c04_monitor_ra DpOracle.c07_monitor_ra DpOracle.c08_monitor_ra DpOracle.c14_monitor_ra
-  DpOracle.ra_sane DpOracle.has_reset DpOracle.conf_after DpOracle.known_reset_while_pending.
+  DpOracle.ra_sane DpOracle.has_reset DpOracle.conf_after DpOracle.known_reset_while_pending
+  DpOracle.c07_monitor_slow DpOracle.c07_no_offline_monitor DpOracle.max_ready_delay DpOracle.c14_silent_none_monitor.
